@@ -395,9 +395,11 @@ def special_files(ctx):
                 continue
             other = [i["code"] for i in issues if i["severity"] == 1 and i["code"] not in ("TEMPORAL_TAG_ERROR",)]
             got = sum(1 for i in issues if i["code"] == "TEMPORAL_TAG_ERROR")
-            if other:
-                rec.outcome("special:other-errors")       # e.g. a repeated group: not this property's business
+            if set(other) - {"TAG_EXPRESSION_REPEATED"}:
+                rec.outcome("special:other-errors")
                 continue
+            # identical rows of one time point are also a repeated group of the merged annotation; the temporal
+            # bookkeeping is reported next to that
             if got != want:
                 rec.violation(f"C10:special:{kind}:expected {want} got {got}" + (":warnings-on" if warn else ""), rows=rows,
                               warnings=warn, messages=[i.get("message", "")[:80] for i in issues if i["code"] == "TEMPORAL_TAG_ERROR"])
